@@ -7,6 +7,7 @@
 //   liftadd|liftsub|liftmul w m a… b… => X A B      (a∘b with the library's operators, then lifted)
 //   liftpmul w m n a(n·m) b(n·m) => C(n) A(n) B(n)  (transform-based product, then lifted)
 #include "common.hpp"
+#include <utility>
 #include <nfl.hpp>
 #include <gmpxx.h>
 #include <new>
@@ -55,6 +56,43 @@ template <class T, size_t N, size_t M> struct Cfg {
     for (size_t cm = 0; cm < M; cm++) { T p = P::get_modulus(cm); T b[] = {0, 1, (T)(p - 1), (T)(p - 2), (T)(p / 2)}; r[cm] = b[g.below(5)]; }
     return r;
   }
+  // residues of integers just below the smallest modulus: every residue is large (the accumulated sum Σ r_i·L_i is
+  // close to its maximum, so the quotient is as large as it gets) while the lifted value z is tiny compared with Q —
+  // the inputs on which a truncated / under-sized quotient estimate is short by more than the one subtraction allows
+  static std::vector<Pat> big_small(Rng& g, size_t count) {
+    T pmin = P::get_modulus(0);
+    for (size_t cm = 1; cm < M; cm++) if (P::get_modulus(cm) < pmin) pmin = P::get_modulus(cm);
+    std::vector<Pat> out;
+    for (size_t k = 0; k < count; k++) {
+      T z = k < 4 ? (T)(pmin - 1 - k) : (T)(pmin - 1 - g.below(pmin / 8));
+      Pat r(M); for (size_t cm = 0; cm < M; cm++) r[cm] = z;   // z < every modulus
+      out.push_back(r);
+    }
+    return out;
+  }
+
+  // light run for sweeping the number of moduli: constants + lifts of the sensitive patterns only
+  static void run_lite(Rng& g) {
+    alignas(32) static P a;
+    head("crtinit"); printf(" =>");
+    pz(P::gmp.moduli_product);
+    printf(" %zu %zu", P::gmp.bits_in_moduli_product, P::gmp.shift_modulus_shoup);
+    pz(P::gmp.modulus_shoup);
+    printf(" %zu", P::gmp.bits_in_modulus_shoup);
+    for (size_t cm = 0; cm < M; cm++) pz(P::gmp.lifting_integers[cm]);
+    printf("\n");
+    std::vector<Pat> pats = {cst(2), cst(1), rnd(g), mix(g)};
+    for (auto& r : big_small(g, thorough() ? 1500 : 800)) pats.push_back(r);
+    while (pats.size() % N) pats.push_back(rnd(g));
+    for (size_t off = 0; off < pats.size(); off += N) {
+      fill(a, pats, off);
+      std::array<mpz_t, N> arr; init_arr(arr);
+      a.poly2mpz(arr);
+      for (size_t i = 0; i < N; i++) emit_lift_line("lift", a, i, arr[i]);
+      clear_arr(arr);
+    }
+  }
+
   static std::vector<size_t> positions(Rng& g) {
     std::vector<size_t> J;
     if (M <= 6 || (thorough() && M <= 64)) { for (size_t j = 0; j < M; j++) J.push_back(j); }
@@ -86,6 +124,7 @@ template <class T, size_t N, size_t M> struct Cfg {
     // is one short and the conditional subtraction fires
     for (unsigned v : {2u, 3u, 1000u}) { Pat r(M); for (size_t cm = 0; cm < M; cm++) r[cm] = (T)(v % P::get_modulus(cm)); pats.push_back(r); }
     { Pat r(M); uint64_t z = g.next() >> 20; for (size_t cm = 0; cm < M; cm++) r[cm] = (T)(z % P::get_modulus(cm)); pats.push_back(r); }
+    for (auto& r : big_small(g, thorough() ? 64 : 12)) pats.push_back(r);
     for (size_t j : positions(g)) { pats.push_back(onehot(j, false)); pats.push_back(onehot(j, true)); pats.push_back(allmax_but(j)); }
     for (size_t k = 0; k < R; k++) pats.push_back(rnd(g));
     while (pats.size() % N) pats.push_back(rnd(g));
@@ -251,6 +290,8 @@ template <class T, size_t N, size_t M> struct Cfg {
 };
 
 template <class T, size_t N, size_t M> static void cfg(Rng& g) { Cfg<T, N, M>::run(g); }
+// every number of moduli M0+1 … M0+count (the lift does not depend on the degree: degree 2)
+template <class T, size_t M0, size_t... I> static void lite_range(Rng& g, std::index_sequence<I...>) { (Cfg<T, 2, M0 + 1 + I>::run_lite(g), ...); }
 
 int main() {
   Rng g(env_u64("VERIF_SEED", 1));
@@ -263,7 +304,12 @@ int main() {
   cfg<uint32_t, 2, 37>(g); cfg<uint32_t, 2, 64>(g);
   cfg<uint64_t, 4, 1>(g); cfg<uint64_t, 4, 2>(g); cfg<uint64_t, 4, 3>(g); cfg<uint64_t, 4, 4>(g);
   cfg<uint64_t, 2, 25>(g);
+  // sweep of the number of moduli (quick: 1..48 for 32 bit, 1..24 for 64 bit; thorough: every count of the 32-bit table)
+  lite_range<uint32_t, 0>(g, std::make_index_sequence<48>{});
+  lite_range<uint64_t, 0>(g, std::make_index_sequence<24>{});
 #ifdef CRT_THOROUGH
+  lite_range<uint32_t, 48>(g, std::make_index_sequence<243>{});
+  lite_range<uint64_t, 24>(g, std::make_index_sequence<104>{});
   cfg<uint16_t, 8, 2>(g);
   cfg<uint32_t, 8, 7>(g); cfg<uint32_t, 2, 8>(g); cfg<uint32_t, 2, 16>(g); cfg<uint32_t, 2, 64>(g); cfg<uint32_t, 2, 100>(g);
   cfg<uint32_t, 2, 128>(g); cfg<uint32_t, 2, 200>(g); cfg<uint32_t, 2, 256>(g); cfg<uint32_t, 2, 290>(g); cfg<uint32_t, 2, 291>(g);
